@@ -212,6 +212,7 @@ func (h *ValueReader) ReadObject(data []byte) (val map[string]interface{}, p int
 	}
 	h.objVal = make(map[string]interface{}, mapSize)
 	p, err = HandleObjectValues(data[p:], h, &h.buf)
+	h.lastMapSize = len(h.objVal)
 	if err != nil {
 		return nil, p, err
 	}
@@ -268,6 +269,7 @@ func (h *ValueReader) ReadArray(data []byte) (val []interface{}, p int, err erro
 	}
 	h.arrVal = make([]interface{}, 0, sliceSize)
 	p, err = HandleArrayValues(data, h, &h.buf)
+	h.lastSliceSize = len(h.arrVal)
 	if err != nil {
 		return nil, p, err
 	}
